@@ -778,7 +778,7 @@ def type_of(case_text, answer):
         return "FBin"
     if op == "fdec":
         return "DBig"
-    return "Relaxed" if (" Re " in answer) else "RBig"
+    return "Relaxed" if (" Re " in answer or (" ok " not in answer and "x" in flags)) else "RBig"
 
 
 def answer_val(answer):
@@ -786,13 +786,21 @@ def answer_val(answer):
     t = answer.split()
     if "shapeerr" in t and "rt" in t:
         # the harness could not read the emitted code: the reference is what the run-time parser says
-        r = t[len(t) - 1 - t[::-1].index("rt") + 1:]
-        return " ".join(r) if r and r[0] not in ("err", "na") else None
+        return answer_rt(answer)
     if "ok" not in t or "val" not in t:
         return None
     i = len(t) - 1 - t[::-1].index("val")
     j = len(t) - 1 - t[::-1].index("rt")
     return " ".join(t[i + 1:j])
+
+
+def answer_rt(answer):
+    """what the run-time parser made of the text of the case (None: refused / not asked)"""
+    t = answer.split()
+    if "rt" not in t:
+        return None
+    r = t[len(t) - 1 - t[::-1].index("rt") + 1:]
+    return " ".join(r) if r and r[0] not in ("err", "na") else None
 
 
 def outer_line(span):
@@ -933,23 +941,27 @@ def extra_phase(tier, seed, exes, oracle):
     verdicts = core.run_sharded(oracle, [(i, "%s => %s" % (t, answers.get(i, "noanswer"))) for i, t in cases], case_timeout=60)
     items = []  # (line number, case, answer, expected value or None)
     body = []
+    by_rt = set()   # cases the oracle failed in the front-end phase: expected value = the run-time parser's
     first_line = (MAIN_IMPORTS + MAIN_HEAD).count("\n") + 1
     for i, t in cases:
         a = answers.get(i, "noanswer")
         v = verdicts.get(i, "noverdict").split()[0]
         if v == "fail" or v == "noverdict":
             res["failures"].append({"case": t, "impl": a, "oracle": verdicts.get(i), "phase": "crate literals through the front end", "replay": "./check C20 --replay <this file>"})
-            if " shapeerr " not in a or answer_val(a) is None:
+            # the real invocation is compiled all the same and compared with the run-time parser's value: a concrete witness
+            # that does not depend on how the harness reads the emitted code
+            if not a.startswith("toks") or answer_rt(a) is None or " reject " in a:
                 continue
-            bump("crate:front-end-unreadable-compiled-anyway")
+            by_rt.add(t)
+            bump("crate:front-end-disagrees-compiled-anyway")
         if a.startswith("lexerr") or not a.startswith("toks"):
             bump("crate:skipped-lexerr")
             continue
         ln = first_line + len(body)
         mac, src = macro_of(t), source_of(t)
-        val = answer_val(a)
+        val = answer_rt(a) if t in by_rt else answer_val(a)
         ty = type_of(t, a)
-        shape_const = val is not None and (" ok c32 " in a or " ok fc32 0 " in a or " ok rc32 " in a)
+        shape_const = t not in by_rt and val is not None and (" ok c32 " in a or " ok fc32 0 " in a or " ok rc32 " in a)
         k = ln % 3
         if val is not None and "static_" in mac and k == 0:
             body.append("    { static S: &%s = %s!(%s); p(%d, S.show()); }" % (ty, mac, src, ln))
@@ -1003,13 +1015,13 @@ def extra_phase(tier, seed, exes, oracle):
         for ln, t, a, val in subset:
             res["evaluations"] += 1
             g = got.get(ln)
-            if " shapeerr " in a and t.split()[0] in ("fbin", "fdec") and g is not None:
+            if t in by_rt and t.split()[0] in ("fbin", "fdec") and g is not None:
                 g, val = " ".join(g.split()[:2]), " ".join(val.split()[:2])
             if g == val:
                 bump("crate:%s:%s" % (tag, t.split()[0]))
                 res["nontrivial"].append("crate[%s] %s %s" % (tag, macro_of(t), source_of(t)))
             else:
-                res["failures"].append({"case": t, "impl": a, "phase": what, "what": "%s!(%s) built `%s`, the front end (and the specification) say `%s`" % (macro_of(t), source_of(t), g, val)})
+                res["failures"].append({"case": t, "impl": a, "phase": what, "what": "%s!(%s) built `%s`, %s `%s`" % (macro_of(t), source_of(t), g, "the run-time parser says" if t in by_rt else "the front end (and the specification) say", val)})
 
     all_lines = dict((first_line + i, l) for i, l in enumerate(body))
     messages = []      # per must-fail invocation: the message class
